@@ -181,6 +181,22 @@ pub fn step_h(mem: &Memfs, model: &mut Model, op: &Op, o: &StepOpts, h: &mut Han
     }
     let obs = tree_from_dump(&post);
     info.mutated = !dump_eq(&pre, &post);
+    // "chmod never alters a symlink itself": whatever the options and however a chain of links is followed,
+    // the permission word of every link that was there before is the one it has afterwards (C11, asserted on
+    // every history that is executed - the model leaves followed chains unspecified, this does not)
+    if matches!(name, "chmod" | "chmod_b") {
+        let before = tree_from_dump(&pre);
+        for (k, n) in &before.nodes {
+            if let (Node::Link { mode: m0, .. }, Some(Node::Link { mode: m1, .. })) = (n, obs.nodes.get(k)) {
+                if m0 != m1 {
+                    return Err(Failure::new(
+                        format!("{}|{}|link-itself-altered", name, ac),
+                        format!("{:?} -> {:?}: the link {:?} had mode {:o}, now {:o}", op, out, k, m0, m1),
+                    ));
+                }
+            }
+        }
+    }
     if o.api_view {
         if let Some(d) = api_view_mismatch(mem, &obs) {
             return Err(Failure::new(format!("{}|{}|api-view-differs-from-stored-state", name, ac), format!("after {:?}: {}", op, d)));
